@@ -126,6 +126,7 @@ def blocks(tier, seed):
     out.append({"part": "tracking-symgrid"})
     out.append({"part": "refine-direct"})
     out.append({"part": "trackers"})
+    out.append({"part": "storage-reuse"})
     out.append({"part": "bad-input"})
     return out
 
@@ -217,6 +218,12 @@ def cases(block):
                     if refine and seq.count("noise1") > 1:
                         continue
                     yield {"part": p, "grid": g, "seq": list(seq), "refine": refine}
+    elif p == "storage-reuse":
+        # a stored sequence is analysed, the resulting time course is extended by the caller, and the SAME storage is analysed again
+        for g in (cart((12, 12), (True, True)), cart((10,), (False,)), {"kind": "cyl", "shape": [6, 10], "R": 6.0, "z": [0.0, 10.0], "periodic_z": False}):
+            for seq in itertools.product(["zeros", "blob", "noise1"], repeat=2):
+                for extend in ("append", "append-time", "tracker"):
+                    yield {"part": p, "grid": g, "seq": list(seq), "extend": extend}
     elif p == "bad-input":
         yield {"part": p}
 
@@ -371,6 +378,40 @@ def run_case(case, ctx):
             ctx.count("perturbed-candidates-without-modes")
         ctx.check("C09.finite", finite_em([res]), {"result": str(res)}, tags)
         return
+    if p == "storage-reuse":
+        from pde import MemoryStorage, ScalarField
+
+        from droplets import DropletTrackList, Emulsion, EmulsionTimeCourse
+
+        g = case["grid"]
+        grid = geom.make_grid(g)
+        fields = [ScalarField(grid, cat_field(g, n)) for n in case["seq"]]
+        st = MemoryStorage()
+        st.start_writing(fields[0])
+        for i, f in enumerate(fields):
+            st.append(f, 0.5 * i)
+        st.end_writing()
+        tags = {"part": p, "grid": g["kind"], "extend": case["extend"]}
+        try:
+            etc = EmulsionTimeCourse.from_storage(st, progress=False)
+            if case["extend"] == "append":
+                etc.append(Emulsion())
+            elif case["extend"] == "append-time":
+                etc.append(Emulsion(), 7.5)
+            else:
+                t = etc.tracker(1)
+                t.initialize(fields[0])
+                t.handle(fields[-1], 9.0)
+            again = EmulsionTimeCourse.from_storage(st, progress=False)
+            tracks = DropletTrackList.from_storage(st, progress=False)
+            ctx.op(3)
+        except Exception as e:  # noqa
+            ctx.check("C09.no-raise", False, {"exc": repr(e)[:300], "seq": case["seq"]}, tags)
+            return
+        ctx.check("C09.no-raise", True)
+        ctx.count("storage-analysed-again-after-extending-the-time-course")
+        ctx.check("C09.finite", len(again) == len(fields) and len(st.times) == len(fields) and all(finite_em(e) for e in again) and len(etc) == len(fields) + 1, {"frames": len(again), "storage_times": list(st.times)}, tags)
+        return
     if p == "trackers":
         return run_trackers(case, ctx)
     if p == "bad-input":
@@ -499,4 +540,4 @@ def run_trackers(case, ctx):
 
 
 def expected_positive(tier):
-    return ["C09.no-raise", "C09.finite", "C09.documented-error", "non-zero-field", "refined-results", "time-course-with-empty-frame", "requests-with-worker-processes", "tracking-with-symmetric-grid", "directly-refined-candidates", "perturbed-candidates-without-modes"]
+    return ["C09.no-raise", "C09.finite", "C09.documented-error", "non-zero-field", "refined-results", "time-course-with-empty-frame", "requests-with-worker-processes", "tracking-with-symmetric-grid", "directly-refined-candidates", "perturbed-candidates-without-modes", "storage-analysed-again-after-extending-the-time-course"]
